@@ -58,6 +58,16 @@ package main
 //   lim=<n> [0]                      the provider's `limit` option
 //   late=1                           the target starts to listen only after the gun factory ran (its reachability lookup of a named target is
 //                                    refused, nothing is pre-resolved, the DNS-caching dialer resolves at the first shot)
+// Round 4:
+//   mode=vol                         volleys: the j-th acquired ammo goes to gun j % inst; the guns of one volley (inst consecutive ammo) shoot
+//                                    TOGETHER (one goroutine each, started at a barrier), the next volley starts `gap` ms after the last
+//                                    answer of the volley before; recorded requests are reported sorted as with mode=par
+//   ect=<ms>|- dto=<ms>|-            the gun options expect-continue-timeout and dial.timeout, by name (`-` = not given; for dto `-` = the
+//                                    harness's generous 20s)
+//   shoff=<n>                        the gun option shared-client {enabled: false, client-number: n} (the combination printed in
+//                                    docs/eng/http-generator.md): per-instance clients whatever the number says
+//   doc=1                            every transport / dialer / shared-client option that the "full config" of docs/eng/http-generator.md
+//                                    prints is written into the gun section with the value printed there, unless the case gives another
 // All byte strings of the line protocol are hex with run-length segments (see hx): bodies beyond 1 MiB, URIs and header values beyond
 // 4 KiB stay short.
 
@@ -166,6 +176,11 @@ type caseIn struct {
 	uris   bool // uri format: the ammo stands in the provider's `uris` option, not in a file
 	lim    int  // the provider's `limit` option (0 = none)
 	late   bool // the target starts listening only AFTER the gun factory ran (its reachability lookup fails)
+
+	// round 4
+	ect, dto string // expect-continue-timeout, dial.timeout: ms | "-"
+	shoff    string // shared-client {enabled: false, client-number: n}: n | "-"
+	doc      bool   // the documented full config
 }
 
 func optOr(s string) string {
@@ -309,6 +324,18 @@ func encodeCase(c caseIn) string {
 	if c.late {
 		timing += " late=1"
 	}
+	if optOr(c.ect) != "-" {
+		timing += " ect=" + c.ect
+	}
+	if optOr(c.dto) != "-" {
+		timing += " dto=" + c.dto
+	}
+	if optOr(c.shoff) != "-" {
+		timing += " shoff=" + c.shoff
+	}
+	if c.doc {
+		timing += " doc=1"
+	}
 	return fmt.Sprintf("kind=run gun=%s fmt=%s ssl=%s srv=%s ka=%s inst=%d tgt=%s passes=%d pre=%s rsp=%s mode=%s sched=%s%s conf=%s ents=%s",
 		gun, c.format, b(c.ssl), c.srv, b(c.ka), c.inst, c.tgt, c.passes, b(c.preload), rsp, mode, strings.Join(sc, "."), timing,
 		strings.Join(cs, ";"), strings.Join(es, "|"))
@@ -364,7 +391,22 @@ func parseCase(input string) (c caseIn, err error) {
 	c.redir = m["redir"] == "1"
 	c.uris = m["src"] == "uris"
 	c.late = m["late"] == "1"
-	for _, o := range []string{c.idle, c.rht, c.mic, c.mich} {
+	c.doc = m["doc"] == "1"
+	c.ect, c.dto, c.shoff = optOr(m["ect"]), optOr(m["dto"]), optOr(m["shoff"])
+	if c.dto != "-" {
+		if n, e := strconv.Atoi(c.dto); e != nil || n < 1 || n > 1000000 {
+			return c, fmt.Errorf("dto")
+		}
+	}
+	if c.shoff != "-" {
+		if n, e := strconv.Atoi(c.shoff); e != nil || n < -8 || n > 8 {
+			return c, fmt.Errorf("shoff")
+		}
+		if c.shared != 0 {
+			return c, fmt.Errorf("shared and shoff")
+		}
+	}
+	for _, o := range []string{c.idle, c.rht, c.mic, c.mich, c.ect} {
 		if o != "-" {
 			if n, e := strconv.Atoi(o); e != nil || n < -100000 || n > 1000000 {
 				return c, fmt.Errorf("option value")
@@ -452,8 +494,11 @@ func parseCase(input string) (c caseIn, err error) {
 	default:
 		return c, fmt.Errorf("gun")
 	}
-	if c.mode != "seq" && c.mode != "par" {
+	if c.mode != "seq" && c.mode != "par" && c.mode != "vol" {
 		return c, fmt.Errorf("mode")
+	}
+	if c.mode == "vol" && len(c.sched) != 0 {
+		return c, fmt.Errorf("sched in volleys")
 	}
 	if c.rsp != "redir" {
 		if n, e := strconv.Atoi(c.rsp); e != nil || n < 0 || n > 1<<20 {
@@ -1006,16 +1051,45 @@ func connsOf(obs string) int {
 	return n
 }
 
-// reuseSuspect: keep-alives on, no pauses, and the target saw more connections than the case has transports
+// reuseSuspect: keep-alives on, nothing in the case's own options or timing stands against reuse (no pauses at all, or pauses and
+// delays at least five times below the idle / response-header timeout in force, no idle limits given), and the target saw more
+// connections than the case has transports
 func reuseSuspect(c caseIn, obs string) bool {
-	if !c.ka || c.gap != 0 || c.delay != 0 || !strings.HasPrefix(obs, "n=") {
+	if !c.ka || !strings.HasPrefix(obs, "n=") {
 		return false
+	}
+	if c.gap != 0 || c.delay != 0 {
+		if c.mic != "-" || c.mich != "-" {
+			return false
+		}
+		idle := 90000
+		if c.idle != "-" {
+			idle, _ = strconv.Atoi(c.idle)
+		}
+		if idle > 0 && 5*c.gap*maxInt(1, c.inst) > idle {
+			return false
+		}
+		if c.rht != "-" {
+			if rht, _ := strconv.Atoi(c.rht); rht > 0 && 5*c.delay > rht {
+				return false
+			}
+		}
 	}
 	pools := c.inst
 	if c.shared > 0 && c.shared < pools {
 		pools = c.shared
 	}
+	if c.shared > 0 && c.mode != "seq" {
+		return false // several guns on one transport at a time: more connections than transports is what net/http does
+	}
 	return connsOf(obs) > pools
+}
+
+func maxInt(a, b int) int {
+	if a > b {
+		return a
+	}
+	return b
 }
 
 func runWith(input string, agg *errAggregator) string {
@@ -1112,6 +1186,49 @@ func runWith(input string, agg *errAggregator) string {
 	}
 	if c.mich != "-" {
 		gunCfg["max-idle-conns-per-host"], _ = strconv.Atoi(c.mich)
+	}
+	// round 4
+	if c.ect != "-" {
+		gunCfg["expect-continue-timeout"] = ms(c.ect)
+	}
+	if c.dto != "-" {
+		d, _ := gunCfg["dial"].(map[string]any)
+		d["timeout"] = ms(c.dto)
+	}
+	if c.shoff != "-" {
+		n, _ := strconv.Atoi(c.shoff)
+		gunCfg["shared-client"] = map[string]any{"enabled": false, "client-number": n}
+	}
+	if c.doc {
+		// the "full config" of docs/eng/http-generator.md, value by value; what the case itself says stands
+		def := func(k string, v any) {
+			if _, ok := gunCfg[k]; !ok {
+				gunCfg[k] = v
+			}
+		}
+		if c.hs == "-" {
+			gunCfg["tls-handshake-timeout"] = "1s"
+		}
+		def("connect-ssl", false)
+		def("disable-keep-alives", false)
+		def("disable-compression", true)
+		def("max-idle-conns", 0)
+		def("max-idle-conns-per-host", 2)
+		def("idle-conn-timeout", "90s")
+		def("response-header-timeout", 0)
+		def("expect-continue-timeout", "1s")
+		def("shared-client", map[string]any{"enabled": false, "client-number": 1})
+		d, _ := gunCfg["dial"].(map[string]any)
+		if c.dto == "-" {
+			d["timeout"] = "1s"
+		}
+		if _, ok := d["dns-cache"]; !ok {
+			d["dns-cache"] = true
+		}
+		d["dual-stack"], d["fallback-delay"], d["keep-alive"] = true, "300ms", "120s"
+		def("answlog", map[string]any{"enabled": true, "path": "/dev/null", "filter": "all"})
+		def("auto-tag", map[string]any{"enabled": true, "uri-elements": 2, "no-tag-only": true})
+		def("httptrace", map[string]any{"dump": true, "trace": true})
 	}
 	var pool struct {
 		Provider core.Provider            `config:"ammo"`
@@ -1219,6 +1336,50 @@ func runWith(input string, agg *errAggregator) string {
 			if shots > 64 {
 				break
 			}
+		}
+	} else if c.mode == "vol" {
+		// volleys: gun j % inst takes the j-th ammo; the guns of a volley start together and the next volley waits for all answers
+		var all []core.Ammo
+		for {
+			a, ok := pool.Provider.Acquire()
+			if !ok {
+				break
+			}
+			all = append(all, a)
+			shots++
+			if shots > 64 {
+				break
+			}
+		}
+		var pmu sync.Mutex
+		for v := 0; v*c.inst < len(all); v++ {
+			if v > 0 && gap > 0 {
+				time.Sleep(gap)
+			}
+			volley := all[v*c.inst:]
+			if len(volley) > c.inst {
+				volley = volley[:c.inst]
+			}
+			start := make(chan struct{})
+			var wg sync.WaitGroup
+			for i, a := range volley {
+				wg.Add(1)
+				go func(i, v int, a core.Ammo) {
+					defer wg.Done()
+					defer func() {
+						if r := recover(); r != nil {
+							pmu.Lock()
+							gunPanic = drv.Clean(fmt.Sprint(r))
+							pmu.Unlock()
+						}
+					}()
+					<-start
+					timedShoot(i, v, a)
+					pool.Provider.Release(a)
+				}(i, v, a)
+			}
+			close(start)
+			wg.Wait()
 		}
 	} else {
 		share := make([][]core.Ammo, c.inst)
@@ -1329,7 +1490,7 @@ func runWith(input string, agg *errAggregator) string {
 		}
 		rs[i] = strings.Join([]string{hx(r.method), hx(r.uri), hx(host), t, strings.Join(hs, ";"), hx(string(r.body)), strconv.Itoa(r.major)}, ",")
 	}
-	if c.mode == "par" {
+	if c.mode == "par" || c.mode == "vol" {
 		sort.Strings(rs)
 	}
 	// the CONNECT authority must be the gun's (resolved) target
@@ -1600,6 +1761,22 @@ func genCase(r *rand.Rand, malformed bool) caseIn {
 	}
 	if r.Intn(12) == 0 {
 		c.passes = 3
+	}
+	// round 4: shared-client {enabled: false, client-number: n}, expect-continue / dial timeouts, volleys, the documented full config
+	if c.shared == 0 && r.Intn(12) == 0 {
+		c.shoff = strconv.Itoa(r.Intn(4))
+	}
+	if r.Intn(20) == 0 {
+		c.ect = []string{"0", "1", "700", "3000"}[r.Intn(4)]
+	}
+	if r.Intn(20) == 0 {
+		c.dto = []string{"3000", "10000"}[r.Intn(2)]
+	}
+	if c.inst > 1 && c.shared == 0 && len(c.sched) == 0 && r.Intn(12) == 0 {
+		c.mode = "vol"
+	}
+	if c.srv == "plain" && r.Intn(25) == 0 {
+		c.doc = true
 	}
 	nEnt := 1 + r.Intn(4)
 	if r.Intn(40) == 0 {
@@ -2136,6 +2313,131 @@ func r3Cases(r *rand.Rand, n int) []string {
 	return out
 }
 
+// pacedCases (round 4): PACED shooting under the client's timeout options. Every case gives ALL five timeouts of the gun by name
+// (idle-conn-timeout, response-header-timeout, tls-handshake-timeout, expect-continue-timeout, dial.timeout) with distinct values;
+// one of the first four is SHORT (300-400 ms), the others are seconds, and the case probes with pauses between the shots of an
+// instance (or with a target that answers late) three times as long as the short one. The property lets only a short
+// idle-conn-timeout (against pauses) or a short response-header-timeout (against late answers) cost connections: every other
+// combination must keep one connection per instance. n cases, the combinations cycled.
+func pacedCases(r *rand.Rand, n int) []string {
+	type combo struct {
+		short string // which option is the short one
+		probe string // gap | delay
+	}
+	combos := []combo{{"rht", "gap"}, {"ect", "gap"}, {"hs", "gap"}, {"idle", "delay"}, {"ect", "delay"}, {"hs", "delay"},
+		{"rht", "delay"}, {"idle", "gap"}} // the last two: the operator's own demand (predicted, not judged)
+	var out []string
+	for i := 0; i < n; i++ {
+		cb := combos[i%len(combos)]
+		short := 300 + 50*r.Intn(3)
+		long := []int{2500, 3000, 3500, 4000, 5000, 7000}
+		r.Shuffle(len(long), func(a, b int) { long[a], long[b] = long[b], long[a] })
+		val := map[string]int{"idle": long[0], "rht": long[1], "hs": long[2], "ect": long[3], "dto": long[4] + 3000}
+		val[cb.short] = short
+		c := caseIn{ka: true, inst: 1 + r.Intn(2), tgt: "127.0.0.1", passes: 1, mode: "seq", rsp: []string{"2", "700"}[r.Intn(2)],
+			idle: strconv.Itoa(val["idle"]), rht: strconv.Itoa(val["rht"]), hs: strconv.Itoa(val["hs"]), ect: strconv.Itoa(val["ect"]),
+			dto: strconv.Itoa(val["dto"])}
+		if cb.probe == "gap" {
+			c.gap = 3 * short
+		} else {
+			c.delay = 3 * short
+		}
+		if c.inst == 2 && r.Intn(2) == 0 {
+			c.mode = "par"
+		}
+		c.format = []string{"uri", "uripost", "jsonline", "jsonarr", "raw"}[r.Intn(5)]
+		c.gun = []string{"http", "http", "connect"}[r.Intn(3)] // http2: response-header-timeout is outside (x/net/http2's own timers)
+		c.ssl = cb.short != "hs" && r.Intn(3) == 0           // a short handshake timeout with a TLS target is the machine's lottery
+		c.srv = map[bool]string{true: "tls", false: "plain"}[c.ssl]
+		if i >= len(combos) && r.Intn(5) == 0 {
+			c.doc = true
+		}
+		shots := 2 + c.inst
+		if cb.probe == "delay" {
+			shots = 2 * c.inst
+		}
+		for j := 0; j < shots; j++ {
+			e := entry{method: "GET", uri: "/paced" + strconv.Itoa(i) + "/" + strconv.Itoa(j), minor: 1}
+			switch c.format {
+			case "uri":
+			case "uripost":
+				e.method, e.body = "POST", "b"+strconv.Itoa(j)
+			default:
+				if j%2 == 1 {
+					e.method, e.body = "PUT", "body"
+				}
+			}
+			c.ents = append(c.ents, e)
+		}
+		out = append(out, encodeCase(c))
+	}
+	return out
+}
+
+// volleyCases (round 4): instances that shoot in VOLLEYS with idle gaps in between (what a rate-limited schedule does to a pool of
+// instances): `inst` >= 3 guns fire together, the target answers after 120-200 ms so that all requests of a volley are in flight at
+// once, then everybody is idle for a while. With per-instance clients the target must never see more connections than instances,
+// whatever `shared-client.client-number` says while `enabled` is false, whatever the idle limits per host (one idle connection per
+// transport is all an instance needs). With shared clients ENABLED the count is the transport's own affair (predicted as a range).
+func volleyCases(r *rand.Rand, n int) []string {
+	var out []string
+	for i := 0; i < n; i++ {
+		c := caseIn{ka: true, inst: 3 + r.Intn(3), tgt: "127.0.0.1", passes: 1, mode: "vol", rsp: []string{"2", "700", "5000"}[r.Intn(3)],
+			gun: "http", delay: 120 + 40*r.Intn(3), gap: 60 + 50*r.Intn(3)}
+		c.format = []string{"uri", "uripost", "jsonline", "jsonarr", "raw"}[r.Intn(5)]
+		volleys := 3
+		switch i % 8 {
+		case 0: // the documented combination: enabled false, client-number 1
+			c.shoff = "1"
+		case 1:
+			c.shoff = strconv.Itoa(2 + r.Intn(2))
+			c.inst = 5 + r.Intn(2)
+		case 2: // the whole documented config
+			c.doc = true
+		case 3: // no shared-client section; one idle connection per host is enough for an instance
+			c.mich = "1"
+			c.gun = []string{"http", "connect"}[r.Intn(2)]
+		case 4: // shared clients enabled: several instances on one transport (two idle connections per host by default)
+			c.shared = 1 + r.Intn(2)
+		case 5: // keep-alives off: one connection per request
+			c.ka = false
+			c.shoff = strconv.Itoa(r.Intn(2))
+			volleys = 2
+		case 6: // client-number 0 / negative with enabled false
+			c.shoff = strconv.Itoa(-r.Intn(2))
+			c.gun = []string{"http", "connect", "http2"}[r.Intn(3)]
+		case 7: // a partial last volley, two passes
+			c.shoff = "1"
+			c.passes = 2
+			volleys = 2
+		}
+		c.ssl = c.gun == "http2" || (!c.doc && r.Intn(4) == 0)
+		c.srv = map[bool]string{true: "tls", false: "plain"}[c.ssl]
+		nE := volleys * c.inst
+		if i%8 == 7 {
+			nE = c.inst + 1 + r.Intn(c.inst-1)
+		}
+		if c.format == "jsonarr" && nE < 2 {
+			nE = 2
+		}
+		for j := 0; j < nE; j++ {
+			e := entry{method: "GET", uri: "/vol" + strconv.Itoa(i) + "/" + strconv.Itoa(j), minor: 1}
+			switch c.format {
+			case "uri":
+			case "uripost":
+				e.method, e.body = "POST", "b"+strconv.Itoa(j)
+			default:
+				if j%3 == 1 {
+					e.method, e.body = "POST", "body"+strconv.Itoa(j)
+				}
+			}
+			c.ents = append(c.ents, e)
+		}
+		out = append(out, encodeCase(c))
+	}
+	return out
+}
+
 // every k-th element, starting at off
 func sample(l []string, k, off int) []string {
 	var out []string
@@ -2156,6 +2458,12 @@ func c09Gen(r *rand.Rand, tier string) []string {
 	if tier == "thorough" {
 		nSize, nR3 = 96, 360
 	}
+	nPaced, nVol := 8, 8
+	if tier == "thorough" {
+		nPaced, nVol = 96, 96
+	}
+	out = append(out, pacedCases(r, nPaced)...)
+	out = append(out, volleyCases(r, nVol)...)
 	out = append(out, sizeCases(r, nSize)...)
 	out = append(out, r3Cases(r, nR3)...)
 	out = append(out, matrix()...)
@@ -2253,6 +2561,15 @@ func c09Class(in, obs string) string {
 	if c.late {
 		cl += "/late-target"
 	}
+	if c.shoff != "-" {
+		cl += "/shared-client-disabled-with-number"
+	}
+	if c.ect != "-" || c.dto != "-" {
+		cl += "/more-timeouts"
+	}
+	if c.doc {
+		cl += "/documented-full-config"
+	}
 	big := false
 	for _, e := range c.ents {
 		if len(e.body) > 1<<20 || len(e.uri) > 4096 || len(e.hdrs) > 16 {
@@ -2295,7 +2612,10 @@ func main() {
 			"CanonicalMIMEHeaderKey comparisons; round 3: shared-client pools of 1-3 clients (sequential shooting), redirect: true with and " +
 			"without a redirecting target, the inline `uris` option, the provider's limit, a target that comes up after the gun factory ran, " +
 			"sizes (bodies beyond the decoders' 1 MiB read chunk and around the 4096-byte bufio buffers, URIs up to 12 KB, header values up " +
-			"to 24 KB, dozens of header lines, a dozen entries, three passes). Driven through config.DecodeAndValidate -> registered provider + registered http gun " +
+			"to 24 KB, dozens of header lines, a dozen entries, three passes); round 4: PACED shooting with all five timeouts of the client " +
+			"(idle-conn / response-header / tls-handshake / expect-continue / dial) given with distinct values, one of them short against pauses or " +
+			"late answers three times as long; VOLLEYS of 3-6 instances shooting together with idle gaps under shared-client {enabled: false, " +
+			"client-number: n}, the documented full config, one idle connection per host, shared clients enabled. Driven through config.DecodeAndValidate -> registered provider + registered http gun " +
 			"against an in-process recording server. non-trivial = at least one request arrived (or a canon comparison); " +
 			"distinct = distinct input line",
 	})
